@@ -95,6 +95,73 @@ type env struct {
 	honestGap    time.Time    // last moment at which no honest seed was connected
 	slowHash     bool         // hashing takes virtual time in this history
 	hashing      atomic.Int64 // pieces that have entered hashing so far
+	lingerRead   atomic.Bool  // the next ReadAt is to linger at its yield point
+	lingering    atomic.Bool  // ... and one did
+}
+
+// racingRead: one Read of the reader is under way inside the store (it has looked at the piece and not yet
+// taken the lock) when everything is evicted and the seeds, corrupting ones included, start refilling.
+// Whatever the Read returns must be the true content, or nothing.
+func (e *env) racingRead(m *rmodel) bool {
+	if !e.slowHash || m.pos >= m.ln {
+		return true
+	}
+	e.lingering.Store(false)
+	e.lingerRead.Store(true)
+	buf := make([]byte, 65536)
+	var got int
+	var err error
+	done := make(chan struct{})
+	go func() {
+		defer close(done)
+		got, err = m.r.Read(buf)
+	}()
+	e.sw.Cut()
+	if e.lingering.Load() {
+		e.tr.T.Pieces.Expire(0, nil, func(ix uint32) { e.tr.T.Have(ix, false) })
+		e.sw.Act("evict all while reader%d is inside ReadAt", m.id)
+		e.sw.Tag("evict")
+		e.stats["evictions_during_a_read"]++
+	}
+	e.lingerRead.Store(false)
+	for k := 0; k < 2400; k++ {
+		select {
+		case <-done:
+			k = 2400
+		default:
+			time.Sleep(250 * time.Millisecond)
+			e.sw.Cut()
+			e.keepHonest()
+		}
+	}
+	select {
+	case <-done:
+	default:
+		m.dead = true // counted by the ordinary progress rule elsewhere; here only content is judged
+		return false
+	}
+	e.sw.Act("reader%d racing read at %d -> (%d, %v)", m.id, m.pos, got, err)
+	if got > 0 {
+		if int64(got) > m.ln-m.pos {
+			e.sw.Viol("C02", "model", "read-beyond-range", fmt.Sprintf("reader%d: racing Read returned %d bytes, only %d left", m.id, got, m.ln-m.pos))
+			return false
+		}
+		tr := e.g.Truth(m.off+m.pos, got)
+		for i := range tr {
+			if tr[i] != buf[i] {
+				e.sw.Viol("C02", "model", "read-content", fmt.Sprintf("reader%d: a Read that was inside the store while its piece was evicted and refilled returned a byte (position %d) that differs from the true content", m.id, m.pos+int64(i)))
+				e.sw.Viol("C01", "content", "reader-content", fmt.Sprintf("tor.Reader returned a byte at torrent offset %d that differs from the true content", m.off+m.pos+int64(i)))
+				return false
+			}
+		}
+		e.stats["bytes_compared"] += got
+		m.pos += int64(got)
+	}
+	if err != nil && !errors.Is(err, io.EOF) {
+		e.sw.Viol("C02", "model", "read-error", fmt.Sprintf("reader%d: racing Read returned error %v", m.id, err))
+		return false
+	}
+	return true
 }
 
 // awaitHashing lets virtual time pass (no reads) until some piece enters hashing, at most two seconds:
@@ -350,6 +417,14 @@ func history(t *testing.T, c *vk.C, rng *rand.Rand, i int) map[string]int {
 					case <-quit:
 					}
 				}
+				if name == "piece.readat.prelock" && e.lingerRead.CompareAndSwap(true, false) {
+					// one read lingers between its look at the piece and taking the store's lock
+					e.lingering.Store(true)
+					select {
+					case <-time.After(300 * time.Millisecond):
+					case <-quit:
+					}
+				}
 			})
 			defer verifhook.SetPoint(nil)
 			st["histories_with_slow_hashing"]++
@@ -383,8 +458,9 @@ func history(t *testing.T, c *vk.C, rng *rand.Rand, i int) map[string]int {
 		for k := 0; k < rng.IntN(3); k++ {
 			newSeed(e, rng, false)
 		}
-		if i%8 == 0 {
-			// the explicit family with slow hashing always has a peer that corrupts every other chunk
+		if i%8 == 0 || i%8 == 2 {
+			// the explicit family with slow hashing (and as many other slow-hashing histories) always has a peer
+			// that corrupts every other chunk
 			newSeedMode(e, rng, false, &swarm.SeedMode{CorruptEvery: 2, CorruptWhole: true})
 		}
 		sw.Cut()
@@ -461,6 +537,10 @@ func history(t *testing.T, c *vk.C, rng *rand.Rand, i int) map[string]int {
 					o = int64(rng.IntN(40000)) - 20000
 				}
 				if !e.seek(m, o, wh) {
+					return
+				}
+			case x < 64 && e.slowHash:
+				if !e.racingRead(m) {
 					return
 				}
 			case x < 72:
